@@ -152,6 +152,32 @@ structure Ordered (h : Hier) : Prop where
   byName : h.sortByRank = false → h.looms.Pairwise (fun a b => cmpStr a.name b.name = .lt)
   looms : ∀ l ∈ h.looms, LoomOrdered l
 
+/-! ### An explicit condition under which the code as it is cannot crash -/
+
+/-- The CPU entries written for loom `n`, in the order `load_cpus` meets them
+    (streams in load order, each list front to back). -/
+def cpuSeq (l : List StreamMeta) (n : Str) : List (Int × Int) :=
+  l.flatMap fun s => if isThr s ∧ s.tp.loom = some n then s.cpus.getD [] else []
+
+/-- `seen` = the physical ids already in the loom.  An entry with a physical
+    id not seen yet must carry an index that is not below the number of CPUs
+    already known (then `loom_get_cpu` returns NULL without touching
+    `cpus_array`), or a negative one (refused before the lookup). -/
+def safeSeq : List Int → List (Int × Int) → Bool
+  | _, [] => true
+  | seen, (i, p) :: r =>
+    if p ∈ seen then safeSeq seen r
+    else decide ((seen.length : Int) ≤ i ∨ i < 0) && safeSeq (seen ++ [p]) r
+
+/-- Every loom's CPU entries come in a safe order (decidable, independent of `build`). -/
+def CpuOrderSafe (ss : List StreamMeta) : Prop :=
+  (ss.all fun s => match s.tp.loom with
+    | some n => safeSeq [] (cpuSeq (load ss) n)
+    | none => true) = true
+
+instance (ss : List StreamMeta) : Decidable (CpuOrderSafe ss) := by
+  unfold CpuOrderSafe; exact inferInstance
+
 /-! ### The hierarchy is the union -/
 
 /-- What a successful `build` contains, in terms of the union. -/
